@@ -70,9 +70,9 @@ const (
 
 func workloadOf(tier string) workload {
 	if tier == "thorough" {
-		return workload{rest: 760000, share: [6]int{790, 8, 26, 105, 26, 45}}
+		return workload{rest: 760000, share: [6]int{780, 8, 26, 105, 26, 55}}
 	}
-	return workload{rest: 40400, share: [6]int{741, 10, 37, 148, 15, 49}}
+	return workload{rest: 40400, share: [6]int{726, 10, 37, 148, 15, 64}}
 }
 
 var schedules = map[[6]int][]uint8{}
@@ -104,7 +104,7 @@ func init() {
 		ID: "C18",
 		Rule: "cases: (1) path data of 1–12 commands over all 20 letters with implicit repetition, rendered in random valid number/separator spellings, compared operation by operation with an independent interpreter of the command AST (arcs: sampled ellipse equation, sweep direction, large-arc rule, end point); " +
 			"(2) the same through the HTML pipeline (inline <svg>, <img> data URI); (3) malformed path data (no crash, error or ignored); (4) rect/circle/ellipse/line/polyline/polygon against closed forms; " +
-			"(5) viewBox × preserveAspectRatio, exhaustive over align × meetOrSlice × 5 aspect relations × root/nested × origin, plus random triples; (6) reference graphs over use/gradients/patterns/markers/clipPath/mask with missing targets and cycles. " +
+			"(5) viewBox × preserveAspectRatio, exhaustive over align × meetOrSlice × 5 aspect relations × root/nested × origin, plus random triples; (6) reference graphs over use/gradients/patterns/markers/clipPath/mask with missing targets and cycles; clipPath, mask and marker definitions have one to three children (shapes or <g> around a shape) and any child may reference any definition, its own included, through clip-path / mask / marker / marker-start / -mid / -end (cycles of any length, through definitions of different kinds, closed by the first or a later or a nested child); marker content consists of probe shapes whose number of painted instances is compared with the vertex rules of SVG 1.1 §11.6.2 (asserted when no marker cycle had to be cut, bounded otherwise). " +
 			"A case is non-trivial when the element under test was found in the trace by its unique fill colour and at least two path operations (path: two commands) were compared, or for (3) when the parser returned, or for (6) when the graph contains at least one missing or cyclic reference and the render returned; distinct = distinct document text.",
 		N: func(tier string) int { return vbExhaustive + workloadOf(tier).rest },
 		Gen: func(r *rand.Rand, i int, tier string) any {
@@ -152,6 +152,13 @@ func init() {
 				"shape_rect_plain": 300 * k, "shape_rect_rounded": 800 * k, "shape_circle": 500 * k, "shape_ellipse": 500 * k, "shape_line": 300 * k, "shape_polyline": 300 * k, "shape_polygon": 300 * k, "shape_not_rendered": 100 * k,
 				"vb_matched": vbExhaustive, "vb_nested_clip_checked": vbExhaustive / 3,
 				"refs_returned": 1500 * k, "refs_missing": 1500 * k, "refs_cycle_use_rejected": 100 * k, "refs_cycle_gradient": 100 * k, "refs_cycle_pattern": 50 * k, "refs_shapes_counted": 3000 * k,
+				// definitions with several children, back references held by a child other than the first
+				// one / by a nested child, such definitions referenced by rendered elements, markers of
+				// that sort really instantiated; cycles through definitions of two kinds; marker content
+				// whose number of instances was asserted (and was not zero)
+				"refs_def_multi_child": 1500 * k, "refs_cycle_via_later_child": 400 * k, "refs_cycle_via_nested_child": 150 * k, "refs_cycle_later_child_used": 250 * k,
+				"refs_marker_cycle_later_child_drawn": 120 * k, "refs_cycle_cross_kind": 15 * k,
+				"refs_marker_content_counted": 1000 * k, "refs_marker_content_drawn": 120 * k, "refs_marker_instances_expected": 150 * k,
 			}
 			for _, l := range "MmLlHhVvCcSsQqTtAaZz" {
 				m["cmd_"+string(l)] = 2000 * k
@@ -164,6 +171,7 @@ func init() {
 			"the recording backend's trace is replayed with PDF semantics (Rectangle = moveto + 3 lineto + closepath; after ClosePath the current point is the sub-path start; Transform right-multiplies the CTM)",
 			"coordinates are multiples of 1/8 below 2^13, so every expected value is exact in float32; comparison tolerance 0.02 + 1e-4·|v|, ellipse equation within 1e-3 (relative) at 8 samples per cubic",
 			"path data starts with a moveto and has no two consecutive closepaths",
+			"reference graphs: the number of marker instances is asserted only for documents where the finite expansion meets no marker cycle, no marker property sits on a <use> (inheritance into the referenced content is not modelled) and no <polygon> has a mid marker (vertex of the closing segment); in the other documents marker content must be painted at most 5 000 times; the `marker` shorthand is never combined with marker-start/-mid/-end on one element; marker properties are put on shapes only, never on <g>",
 			"not generated (open findings): <circle r> in percent, a single <rect> radius in percent, a paint-server href that points to a <use>; a document with a cyclic <use> may be rejected as a whole",
 		},
 		Batch: 2000,
